@@ -356,3 +356,20 @@ func Paths[S comparable](sp PathSpec[S]) map[*ssa.BasicBlock]map[S]bool {
 	}
 	return in
 }
+
+// BlockPos returns the position of the first instruction of b that has one.
+func BlockPos(b *ssa.BasicBlock) token.Pos {
+	for _, in := range b.Instrs {
+		if in.Pos().IsValid() {
+			return in.Pos()
+		}
+	}
+	for _, p := range b.Preds {
+		for i := len(p.Instrs) - 1; i >= 0; i-- {
+			if p.Instrs[i].Pos().IsValid() {
+				return p.Instrs[i].Pos()
+			}
+		}
+	}
+	return token.NoPos
+}
